@@ -187,3 +187,15 @@ package types
 //@   abstract
 //@ func (*Block).ID
 //@   abstract
+
+// ------------------------------------------------------------------- encoding.go
+//@ func (V2Transaction).EncodeTo
+//@   unroll loop#1 11
+
+// documented normalisations of the binary codec (C11)
+//@ wire-ignore FileContractRevision FileContract.Payout "a v1 revision does not transmit the payout; the decoder installs the sentinel MaxCurrency"
+//@ wire-ignore V1Block V2 "V1Block is the v1 prefix of a block; the V2 data follows as a separate pointer item in V2Block"
+//@ func (*Transaction).MerkleLeafHash
+//@   abstract
+//@ func (*V2Transaction).MerkleLeafHash
+//@   abstract
